@@ -10,6 +10,10 @@ TIMER = "stub: `futures-timer` shim: Delay ready iff shim clock >= deadline"
 
 PROPS = {}
 
+# larger field-sensitivity array size: concrete arrays of up to 200 elements keep their contents
+# concrete during symbolic execution (default 64)
+FS200 = ["-Z", "unstable-options", "--cbmc-args", "--max-field-sensitivity-array-size", "200"]
+
 PROPS["C22"] = dict(
     group="core", files=["c22.rs"],
     explanation=(
@@ -44,6 +48,7 @@ NA = {
     "C06": "Swarm-level denial handling has the same reach as C01; only the composition rule is decided, under C58",
     "C07": "PendingNotifyHandler, bounded per-connection channels and back-pressure are scheduling of real channels/tasks",
     "C08": "ConcurrentDial/SmartDial are built on FuturesUnordered (Arc-linked task list with atomics) and boxed futures; quantifier is over completion schedules",
+    "C12": "ExternalAddresses is Vec<Multiaddr>-backed and was tried: one symbolic confirm/expire event on a list of 3 one-component addresses (Vec insert/remove at a symbolic position + Arc<Vec<u8>> equality) did not finish in 30 min; ListenAddresses is a HashSet, PeerAddresses an LruCache, Swarm::listeners() lives in the Swarm's hash maps",
     "C11": "from_full_sets/add/remove operate on HashMap/HashSet of strings; " + HASHMAP,
     "C16": "property is about X25519/ChaCha20-Poly1305/ed25519 under an active adversary; symbolic execution of the ciphers does not terminate and stubbing them removes the property",
     "C18": "X.509/DER parsing and signature verification go through ring/webpki FFI, not executable under Kani",
@@ -205,8 +210,6 @@ PROPS["C13"] = dict(
     stubs=[TRACING], assumptions=[FORGET], hooks=[],
 )
 
-FS200 = ["-Z", "unstable-options", "--cbmc-args", "--max-field-sensitivity-array-size", "200"]
-
 PROPS["C31"] = dict(
     group="gossipsub", files=["c31.rs"], kani_args=FS200,
     explanation=(
@@ -238,11 +241,11 @@ PROPS["C58"] = dict(
         "The code generated by #[derive(NetworkBehaviour)] for a struct with three probe fields whose allow/deny "
         "decision at each of the four connection callbacks and number of contributed dial addresses are symbolic and "
         "whose received calls go to a fixed-size log: a connection/dial is denied iff some field denies; fields are asked "
-        "in declaration order, each once, none after the first denier; the pending-dial address list is the "
-        "concatenation of the fields' lists, byte-identical; each constructible FromSwarm event reaches every field "
+        "in declaration order, each once, none after the first denier (pending dials with and without a known peer id); "
+        "each constructible FromSwarm event reaches every field "
         "exactly once in order; a handler event wrapped Left(Left)/Left(Right)/Right reaches exactly the matching field "
         "with its payload unchanged."),
-    bounds="three fields; one callback/event per harness; FromSwarm kinds {NewListener, NewExternalAddrCandidate, ExternalAddrConfirmed, ExternalAddrExpired}; <= 2 addresses per field; unwind 8",
-    outside="ConnectionHandlerSelect polling, ToSwarm event mapping in poll(), FromSwarm events that need a live connection (ConnectionEstablished/Closed, DialFailure, ...), #[behaviour(to_swarm)] variants, generic fields",
+    bounds="three fields; one callback/event per harness; FromSwarm kinds {NewListener, NewExternalAddrCandidate, ExternalAddrConfirmed, ExternalAddrExpired}; fields contribute no dial addresses; unwind 8",
+    outside="contents of the concatenated address list for pending dials (Vec<Multiaddr> concatenation exhausts 40 GB in CBMC even for one address); ConnectionHandlerSelect polling/poll_close, ToSwarm event mapping in poll(), FromSwarm events that need a live connection (ConnectionEstablished/Closed, DialFailure, ...), #[behaviour(to_swarm)] variants, generic fields",
     stubs=[TRACING, FMT], assumptions=[FORGET], hooks=[],
 )
